@@ -26,16 +26,18 @@ def body(kind, i, dur):
         return "{ sleep %.2f; echo j%d; } | cat >> \"$OUT\" &" % (dur, i)
     if kind == "func":
         return "J %d %.2f &" % (i, dur)
+    if kind == "failing":       # the job's body raises a (fatal, in its subshell) expansion error: no effect, but it has to be awaited like any other
+        return "{ sleep %.2f; : \"${NOPE_%d:?boom}\"; %s; } 2>/dev/null &" % (dur, i, eff)
     raise ValueError(kind)
 
 
-def scenario(n, perm, ctx, kinds, extra):
+def scenario(n, perm, ctx, kinds, extra, failing=0):
     """perm[i] = finishing rank of job i+1 (0 = first); durations are distinct multiples of STEP"""
     lines = ["OUT=$PWD/out", ": > \"$OUT\"", "J() { sleep $2; echo j$1 >> \"$OUT\"; }"]
     launches = []
     for i in range(n):
         dur = STEP * (perm[i] + 1)
-        launches.append(body(kinds[i % len(kinds)], i + 1, dur))
+        launches.append(body(kinds[i % len(kinds)] if not failing else kinds[i], i + 1, dur))
     if ctx == "top":
         for i, l in enumerate(launches):
             lines.append(l)
@@ -70,9 +72,9 @@ def scenario(n, perm, ctx, kinds, extra):
     return "\n".join(lines) + "\n"
 
 
-def expected(n, ctx, extra):
+def expected(n, ctx, extra, failing=0):
     exp = ["fg%d" % (i + 1) for i in range(n)]
-    allj = " ".join("j%d" % (i + 1) for i in range(n)) + " "
+    allj = " ".join("j%d" % (i + 1) for i in range(n) if i + 1 != failing) + " "
     exp.append("W:" + allj)
     if extra == "rewait":
         exp.append("W2:" + allj)
@@ -80,6 +82,58 @@ def expected(n, ctx, extra):
         exp.append("fgx")
         exp.append("W3:" + " ".join(sorted(["j%d" % (i + 1) for i in range(n + 1)])) + " ")
     return exp
+
+
+def fg_scenario(ops, durs, kinds):
+    """foreground alphabet of Jobs.tla: L launch, W wait (all), P wait %% (the current job), F wait %1, J jobs.
+    Returns (script, expected lines)."""
+    lines = ["OUT=$PWD/out", ": > \"$OUT\"", "J() { sleep $2; echo j$1 >> \"$OUT\"; }"]
+    exp, launched, n, table_empty_at_first, first_alive = [], [], 0, True, False
+    live = []          # jobs launched since the last `wait` (all)
+    for op in ops:
+        if op == "L":
+            n += 1
+            if not live:
+                first_alive = True
+                first_id = n
+            lines.append(body(kinds[n % len(kinds)], n, durs[(n - 1) % len(durs)]))
+            lines.append("echo fg%d" % n)
+            exp.append("fg%d" % n)
+            live.append(n)
+            launched.append(n)
+        elif op == "W":
+            lines.append("wait")
+            lines.append("echo \"W:$(sort \"$OUT\" | tr '\\n' ' ')\"")
+            exp.append("W:" + " ".join(sorted("j%d" % i for i in launched)) + (" " if launched else ""))
+            live = []
+        elif op == "P" and live:
+            k = live[-1]
+            lines.append("wait %%")
+            lines.append("echo \"P%d:$(grep -c '^j%d$' \"$OUT\")\"" % (k, k))
+            exp.append("P%d:1" % k)
+        elif op == "F" and live and first_alive:
+            k = live[0]
+            lines.append("wait %1")
+            lines.append("echo \"F%d:$(grep -c '^j%d$' \"$OUT\")\"" % (k, k))
+            exp.append("F%d:1" % k)
+        elif op == "J":
+            lines.append("jobs > /dev/null")
+    lines.append("wait")
+    lines.append("echo \"E:$(sort \"$OUT\" | tr '\\n' ' ')\"")
+    exp.append("E:" + " ".join(sorted("j%d" % i for i in launched)) + (" " if launched else ""))
+    return "\n".join(lines) + "\n", exp
+
+
+def gen_fg_scenarios(tier, rnd):
+    import itertools as it
+    seqs = []
+    for L in (3, 4, 5):
+        for ops in it.product("LWPFJ", repeat=L):
+            if ops[0] != "L" or ops.count("L") < 2 or ("P" not in ops and "F" not in ops):
+                continue
+            seqs.append(ops)
+    rnd.shuffle(seqs)
+    return seqs[: (120 if tier == "quick" else 1500)]
 
 
 def gen_scenarios(tier, rnd):
@@ -93,6 +147,10 @@ def gen_scenarios(tier, rnd):
                 rnd.shuffle(kinds)
                 extra = rnd.choice(["", "jobs", "rewait", "second_round"])
                 sc.append((n, perm, ctx, kinds, extra))
+    # a job that ends with an error, at each position among three
+    for pos in range(3):
+        for extra in ("", "rewait"):
+            sc.append((3, (2, 0, 1), "top", ["failing" if i == pos else "group" for i in range(3)], extra, pos + 1))
     big = [5, 6, 8] if tier == "thorough" else [4, 6]
     for n in big:
         for _ in range(6 if tier == "quick" else 40):
@@ -181,12 +239,24 @@ def run(tier):
     # (2) scenarios in the real shell
     scs = gen_scenarios(tier, rnd)
     runs = []
-    for k, (n, perm, ctx, kinds, extra) in enumerate(scs):
+    for k, sc_ in enumerate(scs):
+        n, perm, ctx, kinds, extra = sc_[:5]
+        failing = sc_[5] if len(sc_) > 5 else 0
         front = ["file", "stdin"][k % 2]
         cpus = [None, "0", "0,1"][k % 3]
         pause = ["", "job_task_start=30", "job_task_end=25", "job_task_start=15,job_task_end=15"][k % 4]
         runs.append({"k": k, "n": n, "perm": perm, "ctx": ctx, "extra": extra, "front": front, "cpus": cpus, "pause": pause,
-                     "script": scenario(n, perm, ctx, kinds, extra), "exp": expected(n, ctx, extra)})
+                     "script": scenario(n, perm, ctx, kinds, extra, failing), "exp": expected(n, ctx, extra, failing)})
+
+    kinds_all = ["group", "subshell", "andor", "pipeline", "func"]
+    for ops in gen_fg_scenarios(tier, rnd):
+        k = len(runs)
+        durs = [STEP * rnd.choice([1, 2, 3, 5, 8]) for _ in range(6)]
+        kinds = kinds_all[:]
+        rnd.shuffle(kinds)
+        scr, exp = fg_scenario(ops, durs, kinds)
+        runs.append({"k": k, "n": ops.count("L"), "perm": tuple(ops), "ctx": "fg-sequence", "extra": "".join(ops), "front": ["file", "stdin"][k % 2], "cpus": [None, "0", "0,1"][k % 3],
+                     "pause": ["", "job_task_start=30", "job_task_end=25", ""][k % 4], "script": scr, "exp": exp})
 
     def one(rn):
         d = tempfile.mkdtemp(prefix="c17-", dir=scratch())
@@ -261,10 +331,11 @@ def run(tier):
         "states": states + tr["states"], "transitions": states + tr["states"], "distinct_states": distinct,
         "traces_validated_against_impl": len(segments), "trace_events": nev,
         "evaluations": len(runs), "distinct_nontrivial": sum(1 for rn in runs if rn["n"] >= 2),
-        "rule": "scenarios = job sets (1..N jobs; job bodies: brace group, subshell, and-or list, pipeline, function call) whose durations are "
+        "rule": "scenarios = (a) job sets (1..N jobs; job bodies: brace group, subshell, and-or list, pipeline, function call) whose durations are "
                 "distinct multiples of %d ms realising a chosen finishing permutation (all permutations for n <= %d, sampled beyond), launched from "
                 "top level / a function / a loop, with foreground echoes between launches, optional `jobs`, repeated `wait`, a second round; delivered as "
-                "script file or over stdin; under taskset 1 CPU / 2 CPUs / all; with pause points delaying task start / task completion; "
+                "script file or over stdin; under taskset 1 CPU / 2 CPUs / all; with pause points delaying task start / task completion; (b) foreground sequences over the model's "
+                "alphabet {launch, wait, wait %%%%, wait %%1, jobs} of length 3-5 with random durations; "
                 "non-trivial = at least two jobs" % (int(STEP * 1000), 4),
         "finishing_permutations": perms, "exhaustive": True,
         "model": {"configs": cfgs, "states": states, "distinct": distinct, "invariants": ["DistinctIds", "WaitComplete", "WaitedEnded", "NoLostJob"], "liveness": "WaitReturns",
